@@ -9,6 +9,7 @@ import (
 
 	"github.com/unixpickle/model3d/model2d"
 	"github.com/unixpickle/model3d/model3d"
+	"github.com/unixpickle/model3d/render3d"
 	"verif/harness/hlib/go2lean"
 )
 
@@ -52,6 +53,13 @@ var kernelRecv = map[string]reflect.Type{
 	"model2d.VecScale":         reflect.TypeOf(model2d.VecScale{}),
 	"model2d.Matrix2Transform": reflect.TypeOf(model2d.Matrix2Transform{}),
 	"model2d.LinearConstraint": reflect.TypeOf(model2d.LinearConstraint{}),
+	"model3d.GeoCoord":         reflect.TypeOf(model3d.GeoCoord{}),
+	"render3d.LambertMaterial": reflect.TypeOf(render3d.LambertMaterial{}),
+	"render3d.PhongMaterial":   reflect.TypeOf(render3d.PhongMaterial{}),
+	"render3d.HGMaterial":      reflect.TypeOf(render3d.HGMaterial{}),
+	"render3d.RefractMaterial": reflect.TypeOf(render3d.RefractMaterial{}),
+	"render3d.PointLight":      reflect.TypeOf(render3d.PointLight{}),
+	"render3d.Camera":          reflect.TypeOf(render3d.Camera{}),
 }
 
 var kernelFree = map[string]interface{}{
@@ -73,6 +81,10 @@ var kernelFree = map[string]interface{}{
 	"model2d.X":                 model2d.X,
 	"model2d.XY":                model2d.XY,
 	"model2d.Y":                 model2d.Y,
+	"render3d.NewCameraAt":      render3d.NewCameraAt,
+	"render3d.ClampColor":       render3d.ClampColor,
+	"render3d.NewColor":         render3d.NewColor,
+	"render3d.NewColorRGB":      render3d.NewColorRGB,
 }
 
 // fill sets the float64 leaves of v (addressable) from xs, in Go field order.
@@ -85,6 +97,8 @@ func fill(v reflect.Value, xs *[]float64) bool {
 		v.SetFloat((*xs)[0])
 		*xs = (*xs)[1:]
 		return true
+	case reflect.Bool:
+		return false // boolean inputs are not part of the flattened float interface
 	case reflect.Struct:
 		for i := 0; i < v.NumField(); i++ {
 			if !fill(v.Field(i), xs) {
@@ -230,6 +244,10 @@ func RunKernels(c *Ctx, prefix string, n int) {
 		return
 	}
 	for _, e := range entries {
+		if e.Libm {
+			c.Stat("gk.libm-not-bit-comparable", 1)
+			continue
+		}
 		called := 0
 		for k := 0; k < n; k++ {
 			xs := make([]float64, e.NIn)
